@@ -349,7 +349,12 @@ class GCXS(SparseArray, NDArrayOperatorsMixin):
     __getitem__ = getitem
 
     def _reduce_calc(self, method, axis, keepdims=False, **kwargs):
-        if axis[0] is None or np.array_equal(axis, np.arange(self.ndim, dtype=np.intp)):
+        if len(axis) == 0:
+            # reduction over no axes (NumPy: element-wise application to single elements)
+            out = self.tocoo().reduce(method, axis=axis, keepdims=keepdims, **kwargs)
+            return (out.asformat("gcxs", compressed_axes=self.compressed_axes) if isinstance(out, COO) else out,)
+
+        if axis[0] is None or np.array_equal(np.sort(axis), np.arange(self.ndim, dtype=np.intp)):
             x = self.flatten().tocoo()
             out = x.reduce(method, axis=None, keepdims=keepdims, **kwargs)
             if keepdims:
